@@ -23,10 +23,10 @@ def run(ctx):
         "ties between entries with the same secondary key are resolved in index order: first entry for EQUAL/CEILING/HIGHER and for FLOOR on an exact match, last entry for LOWER and FLOOR otherwise",
         "session expiry (the fourth way a record disappears) is exercised by C14; here records vanish by overwrite, delete and delete-range",
     ]
-    r = ctx.tlc("OxiaDbMC", "db-c15-quick.cfg", label="laws")
+    r = ctx.tlc("OxiaDbMC", "db-c15-quick.cfg", label="laws", heap="4g")
     ctx.log("IndexMirror (3 requests x 1 op): %d distinct states, %d transitions" % (r.distinct, r.generated))
     if not quick:
-        r = ctx.tlc("OxiaDbMC", "db-c15-thorough.cfg", label="laws2")
+        r = ctx.tlc("OxiaDbMC", "db-c15-thorough.cfg", label="laws2", heap="4g")
         ctx.log("IndexMirror (2 requests x <=2 ops): %d distinct states, %d transitions" % (r.distinct, r.generated))
 
     binp = ctx.go_build("dbcheck")
